@@ -1,6 +1,7 @@
 """C05 CPC: exhaustive predicates over the compression tables (complete prefix codes, bijective permutations, definitional
 tables), wrapping probes in the coupon table, masked row folding in the union, reduce_k dominance."""
 from fractions import Fraction
+import re
 from astu import C, ctxt, gt_pair, eq_const, reach, reach_txt, ctext, strip, strip_all, walk, walkp, txt, short, is_this_field, field_name, stmts_of, always_throws, functions_by, local_decls
 from vlib.core import ob
 
@@ -372,4 +373,62 @@ def flavor_aware_or(facts):
                 out.append(ob("cpc.flavor-or", key, c["loc"], "violated", "%s(%s) in %s: the flavor of `%s` is never determined here - for a SLIDING sketch the table holds inverted early-zone entries and the resulting matrix is wrong; an arbitrary sketch must be converted with build_bit_matrix()" % (c["cname"], txt(a0)[:50], fn["name"], owner), fn["qname"]))
     if n < 3:
         out.append(ob("cpc.flavor-or", "anchor", "", "unrecognised", "only %d or_*_into_matrix calls found" % n, ""))
+    return out
+
+
+def flavor_boundaries(facts):
+    """determine_flavor(lg_k, c) partitions the coupon counts at the documented thresholds, compared without rounding:
+    EMPTY c == 0; SPARSE 32c < 3k; HYBRID 2c < k; PINNED 8c < 27k; SLIDING otherwise (k = 1 << lg_k).  Every return is reduced to the
+    interval its reach conditions describe on that chain of thresholds, so the order in which the chain is tested, ternaries, locals
+    and multiplications written as shifts do not matter; a threshold computed with an integer division (3k/32 truncates for k = 16)
+    or with another constant is a different partition: the update path (update_sparse / update_windowed use the exact forms)
+    and the serializer then disagree about the flavor of the same sketch."""
+    import semantics
+    from astu import single_assignment_locals
+    fns = functions_by(facts, ["cpc"])
+    out = []
+    # canonical literal text -> (threshold index, "lo": c is at or above it / "hi": c is below it)
+    T = {}
+    for i, (a, b) in enumerate((("(p1<<5)", "((1<<p0)*3)"), ("(p1<<1)", "(1<<p0)"), ("(p1<<3)", "((1<<p0)*27)"))):
+        T[C("(%s<%s)" % (a, b))] = (i + 1, "hi")
+        T[C("(%s>=%s)" % (a, b))] = (i + 1, "lo")
+    # k is a power of two >= 16: k / 2 and 27k / 8 are exact, so the divided spellings of those two are the same thresholds
+    for i, b in ((2, "((1<<p0)>>1)"), (2, "(1<<(p0-1))"), (3, "(((1<<p0)*27)>>3)"), (3, "(((1<<p0)>>3)*27)")):
+        T[C("(p1<%s)" % b)] = (i, "hi")
+        T[C("(p1>=%s)" % b)] = (i, "lo")
+    T[C("(p1==0)")] = (0, "hi")
+    T[C("(p1!=0)")] = (0, "lo")
+    T[C("(p1>0)")] = (0, "lo")
+    want = {"EMPTY": (None, 0), "SPARSE": (0, 1), "HYBRID": (1, 2), "PINNED": (2, 3), "SLIDING": (3, None)}
+    for pat, fn in sorted(fns.items()):
+        if fn["name"] != "determine_flavor" or len(fn.get("params") or []) != 2:
+            continue
+        key = "cpc_sketch_alloc::determine_flavor(lg_k,c):boundaries"
+        inl = dict(single_assignment_locals(fn))
+        for i, pm in enumerate(fn["params"]):
+            inl[pm["d"]] = {"k": "Ref", "n": "p%d" % i, "d": None, "dk": "synthetic"}
+        cases = semantics.return_cases(fn, inl)
+        got, unknown = {}, []
+        for conds, val in cases:
+            lo, hi = None, None
+            for c in conds:
+                if c not in T:
+                    unknown.append(c)
+                    continue
+                i, side = T[c]
+                if side == "lo":
+                    lo = i if lo is None else max(lo, i)
+                else:
+                    hi = i if hi is None else min(hi, i)
+            got.setdefault(val.split("::")[-1], []).append((lo, hi))
+        if unknown:
+            numeric = all(re.fullmatch(r"[()p01-9<>=!*/+\-]+", u) for u in unknown)
+            out.append(ob("cpc.flavor", key, fn["pat"], "violated" if numeric else "unrecognised", "flavor boundary `%s` is not one of the documented exact comparisons (c == 0, 32c < 3k, 2c < k, 8c < 27k): an integer division rounds the threshold for small k (3k/32 is 1 for k = 16), so determine_flavor() and the update path classify the same sketch differently" % unknown[0], fn["qname"]))
+            continue
+        bad = [(v, iv) for v, ivs in got.items() for iv in ivs if want.get(v) != iv]
+        missing = [v for v in want if v not in got]
+        if bad or missing:
+            out.append(ob("cpc.flavor", key, fn["pat"], "violated", "flavor intervals are %s%s; documented: EMPTY c=0, SPARSE < 3k/32, HYBRID < k/2, PINNED < 27k/8, SLIDING beyond" % (bad, (" (never returned: %s)" % missing) if missing else ""), fn["qname"]))
+        else:
+            out.append(ob("cpc.flavor", key, fn["pat"], "discharged", "five flavors on the exact thresholds 0 | 3k/32 | k/2 | 27k/8", fn["qname"]))
     return out
